@@ -812,8 +812,10 @@ func TestCheck(t *testing.T) {
 	failures := 0
 	nTiny, nMin := 30, 10
 	if r.Thorough() {
-		nTiny, nMin = 400, 120
+		nTiny, nMin = 250, 80
 	}
+	r.S.Extra["accessor_cases_per_row_and_preset"] = map[string]int{"tiny": nTiny, "minimal": nMin}
+	r.S.Extra["views_not_reachable_from_a_state_accessor"] = "HistoricalBatchView, WithdrawalView, BLSToExecutionChangeView, SignedBLSToExecutionChangeView, SyncAggregateView and the block/operation views are not sub-views of a state and are outside this table (their encodings are C04/C05's subject)"
 	for i, tr := range tour {
 		if tr.slot%r.S.NShards != r.S.Shard {
 			continue
@@ -845,9 +847,9 @@ func TestCheck(t *testing.T) {
 		for fork := 0; fork <= zb.Electra; fork++ {
 			for pi, p := range []string{"tiny", "minimal"} {
 				e, _ := getEnv(p, fork)
-				n := r.N(240, 3200)
+				n := r.N(240, 2000)
 				if p == "minimal" {
-					n = r.N(64, 800)
+					n = r.N(64, 500)
 				}
 				if !r.Search(t, "copies/"+p+"/"+e.forkName(), 100+10*fork+pi, n, func(rt *rapid.T) (any, *report.Failure) {
 					c := genCopiesCase(rt, e)
@@ -862,7 +864,7 @@ func TestCheck(t *testing.T) {
 		}
 	}
 	if failures == 0 {
-		r.Search(t, "copies/sim", 7, r.N(256, 3000), func(rt *rapid.T) (any, *report.Failure) {
+		r.Search(t, "copies/sim", 7, r.N(256, 2000), func(rt *rapid.T) (any, *report.Failure) {
 			c := genSimCase(rt)
 			return c, run(r, c)
 		})
